@@ -51,7 +51,7 @@ def text_fn(gen, module):
         L.append("    case %d: { auto v = %s(pa, na); std::string s = ::emboss::WriteToString(v, opts_of(oi)); P(\"text\", esc(s));" % (i, mk))
         L.append("      unsigned char *z = new unsigned char[na]; std::memset(z, 0, na); auto w = %s(z, na);" % mk)
         L.append("      bool u = ::emboss::UpdateFromText(w, s); P(\"update\", u);")
-        L.append("      if (u) { auto w2 = %s(z, na); P(\"okW\", w2.Ok()); P(\"text2\", esc(::emboss::WriteToString(w2, opts_of(oi)))); }" % mk)
+        L.append("      if (u) { auto w2 = %s(z, na); P(\"okW\", w2.Ok()); P(\"text2\", esc(::emboss::WriteToString(w2, opts_of(oi)))); P(\"bytes\", tohex(z, na)); }" % mk)
         L.append("      delete[] z; break; }")
     L.append("    default: break;")
     L.append("  }")
@@ -181,7 +181,64 @@ def top_level_names(s):
     return names
 
 
+def float_values(rnd, n):
+    """Finite doubles / floats as bit patterns: extremes of magnitude, values that need every significant
+    digit, three-digit exponents of either sign, both signs, zeros, denormals, and random finite ones."""
+    import struct
+
+    d = [1.7976931348623157e308, 2.2250738585072014e-308, 5e-324, 1.2345678901234567e100, 9.8765432109876543e-100, 1.0, 0.1, 1e22, 1e23, 123456789012345678.0, 3.141592653589793, 0.0, 2.0**-1022 * 0.75, 1e100, 1e-99, 7.0e-310]
+    out64 = []
+    for x in d:
+        out64 += [struct.pack("<d", x), struct.pack("<d", -x)]
+    while len(out64) < n:
+        b = rnd.getrandbits(64)
+        if (b >> 52) & 0x7FF != 0x7FF:
+            out64.append(struct.pack("<Q", b))
+    f = [3.4028234663852886e38, 1.1754943508222875e-38, 1e-45, 1.0, 0.1, 16777216.0, 3.1415927410125732, 0.0, 1.2345678e-30]
+    out32 = []
+    for x in f:
+        out32 += [struct.pack("<f", x), struct.pack("<f", -x)]
+    while len(out32) < n:
+        b = rnd.getrandbits(32)
+        if (b >> 23) & 0xFF != 0xFF:
+            out32.append(struct.pack("<I", b))
+    return out64, out32
+
+
+def float_family_case(seed):
+    """Always part of the run.  cpp-reference.md still says text I/O of Float is "not yet implemented"; the
+    runtime implements both directions and calls the reader "the mirror of" the writer, so finite values are
+    held to the round trip (NaN payloads and infinities are left out)."""
+    rnd = random.Random(seed)
+    m = M.Module("m.emb")
+    m.default_byte_order = rnd.choice(["LittleEndian", "BigEndian"])
+    m.namespace = "v::fl"
+    st_ = M.Struct("struct", "Fl")
+    st_.fields.append(M.Field("d", ("n", 0), ("n", 8), M.Type("Float", 64)))
+    st_.fields.append(M.Field("f", ("n", 8), ("n", 4), M.Type("Float", 32)))
+    m.types.append(st_)
+    semgen.set_parents(st_, None)
+    text = semgen.module_text(m)
+    r = emb.compile_files({"m.emb": text})
+    if not r.accepted:
+        raise vlib.HarnessError("float family module rejected: %s" % (r.exc_sig or r.errors[0][0].message))
+    C1.set_cpp_names(m)
+    gen = D.DriverGen({"": m})
+    src = gen.source("m.emb.h", extra_fns=text_fn(gen, m), main_extra=MAIN_EXTRA)
+    d64, f32 = float_values(rnd, 48)
+    script, expect = [], []
+    be = m.default_byte_order == "BigEndian"
+    for i in range(max(len(d64), len(f32))):
+        b = (d64[i % len(d64)][::-1] if be else d64[i % len(d64)]) + (f32[i % len(f32)][::-1] if be else f32[i % len(f32)])
+        for oi in rnd.sample(range(len(OPTS)), 3):
+            script.append("T 0 %d %s" % (oi, b.hex()))
+            expect.append({"struct": "Fl", "buf": b, "opt": OPTS[oi], "present": {"d": True, "f": True}, "deps": {}, "skip": [], "emit": [], "arrays": False, "nontrivial": True, "exact_bytes": True})
+    return {"rejected": False, "text": text, "header": r.header, "driver": src, "script": "\n".join(script) + "\n", "expect": expect, "features": ["float-family"], "module": m, "excluded_float": 0}
+
+
 def build_case(seed, nbuf):
+    if isinstance(seed, tuple) and seed[0] == "float-family":
+        return float_family_case(seed[1])
     rnd = random.Random(seed)
     m, feats = semgen.layout_module(rnd)
     mark_text_output(rnd, m)
@@ -301,6 +358,8 @@ def compare(case, outputs, stats):
         if gd.get("update") != "1":
             fail({"kind": "update-from-own-text-fails"}, "UpdateFromText(WriteToString(view, options)) returned false")
             continue
+        if e.get("exact_bytes") and gd.get("bytes") != e["buf"].hex():
+            fail({"kind": "roundtrip-value-differs", "field": "Float"}, "the bytes read back from the text are %s, the original view holds %s" % (gd.get("bytes"), e["buf"].hex()))
         if gd.get("text2") != gd.get("text"):
             a, b = s.split("\n"), gd.get("text2", "").replace("\\n", "\n").split("\n")
             k = next((i for i in range(min(len(a), len(b))) if a[i] != b[i]), min(len(a), len(b)))
@@ -429,7 +488,7 @@ def run(ctx):
     ctx.rule = RULE
     ctx.assumptions = [
         "round trip is judged by WriteToString(re-read view) == WriteToString(original) under the same options, which holds iff every emitted field reads back equal",
-        "single-line output with comments is not claimed re-readable and not generated; structs containing Float fields are excluded (float text I/O is documented as not implemented)",
+        "single-line output with comments is not claimed re-readable and not generated; generated structs containing Float fields are excluded (cpp-reference.md says float text I/O is not implemented); a fixed Float structure with finite values is held to the bit-exact round trip, because the runtime does implement both directions",
         "Skip is only put on fields no other field depends on",
     ]
     stats = vlib.Stats()
@@ -438,8 +497,9 @@ def run(ctx):
     rnd = random.Random(ctx.seed * 86028121 + 9)
     root = os.path.join(ctx.tmp, "c06")
     cases = []
-    for i in range(nmod):
-        c = build_case(rnd.randrange(2**62), ctx.pick(4, 8))
+    seeds = [rnd.randrange(2**62) for _ in range(nmod)] + [("float-family", ctx.seed * 2 + k) for k in range(2)]
+    for i, sd in enumerate(seeds):
+        c = build_case(sd, ctx.pick(4, 8))
         if c["rejected"] or not c["expect"]:
             stats.discards += 1
             continue
